@@ -441,7 +441,16 @@ def rule_r15_body(body, counts):
     return new
 
 
+def rule_r18_body(body, counts):
+    """R18: `E.parse::<usize>().unwrap()` -> `verif_parse_usize_unwrap(E)` (the panic condition becomes the stub's precondition)."""
+    new, n = re.subn(r'\b([A-Za-z_]\w*)\.parse::<usize>\(\)\.unwrap\(\)', r'verif_parse_usize_unwrap(\1)', body)
+    if n:
+        counts['R18'] = counts.get('R18', 0) + n
+    return new
+
+
 RULES_BODY = {
+    'R18': rule_r18_body,
     'R5t': rule_r5t_body,
     'R14': rule_r14_body,
     'R15': rule_r15_body,
@@ -871,16 +880,33 @@ def emit_fn(d, unit, report, canaries):
                 raise ExtractError('lost anchor: %s ascribe %s' % (fname, var))
             counts['R12'] = counts.get('R12', 0) + 1
     for name, argstr, text in d.sections:
+        if name == 'iterize':
+            # R14b: `for X in NAME {` with NAME a reference to a HashSet/HashMap -> `for X in NAME.iter() {`
+            for nm in argstr.split(','):
+                body, n = re.subn(r'\bfor (\w+) in %s \{' % re.escape(nm.strip()), r'for \1 in %s.iter() {' % nm.strip(), body)
+                if n == 0:
+                    raise ExtractError('lost anchor: %s iterize %s' % (fname, nm))
+                counts['R14'] = counts.get('R14', 0) + n
+    for name, argstr, text in d.sections:
         if name == 'opaque':
             # R17: a loop the verifier cannot ingest is replaced by the given call of an assumed stub; the dropped lines are reported
             rx, k, _ = parse_anchor(argstr)
             blines = body.split('\n')
             i = find_line(blines, rx, k, fname + ' opaque')
             rest = '\n'.join(blines[i:])
-            pos = _loop_open_brace(rest)
-            if pos is None:
-                raise ExtractError('lost anchor: %s opaque ~%s is not a loop header' % (fname, rx))
-            close = _match_brace(rest, pos)
+            pos = _loop_open_brace(rest) if re.match(r'\s*(for|while|loop)\b', blines[i]) else None
+            if pos is not None:
+                close = _match_brace(rest, pos)
+            else:
+                # a statement: up to the line on which brackets balance and a `;` ends it
+                j = i
+                text_acc = blines[j]
+                while not _balanced_stmt(text_acc):
+                    j += 1
+                    if j >= len(blines):
+                        raise ExtractError('lost anchor: %s opaque ~%s: unterminated statement' % (fname, rx))
+                    text_acc += '\n' + blines[j]
+                close = len(text_acc) - 1
             dropped = rest[:close + 1]
             indent = re.match(r'\s*', blines[i]).group(0)
             body = '\n'.join(blines[:i]) + '\n' + indent + '// [R17] opaque region (%d lines not verified)\n' % (dropped.count('\n') + 1) \
